@@ -849,13 +849,14 @@ fn should_do_dollar_command_extension(line: &str) -> bool {
     !libs::re::re_contains(line, r"='.*\$\([^\)]+\).*'$")
 }
 
-/// Split `text` at its first `$(...)`: the text before it, the command
-/// between the (balanced) parentheses and the text after the closing one.
+/// Split `text` at its first command substitution, `$(...)` or `` `...` ``:
+/// the text before it, the command (between the balanced parentheses, or
+/// between the two backquotes) and the text after it.
 fn split_first_substitution(text: &str) -> Option<(String, String, String)> {
     let chars: Vec<char> = text.chars().collect();
     let mut i = 0;
-    while i + 1 < chars.len() {
-        if chars[i] == '$' && chars[i + 1] == '(' {
+    while i < chars.len() {
+        if chars[i] == '$' && i + 1 < chars.len() && chars[i + 1] == '(' {
             let mut depth: usize = 1;
             let mut j = i + 2;
             while j < chars.len() {
@@ -877,6 +878,19 @@ fn split_first_substitution(text: &str) -> Option<(String, String, String)> {
             let tail: String = chars[j + 1..].iter().collect();
             return Some((head, cmd, tail));
         }
+        if chars[i] == '`' {
+            let mut j = i + 1;
+            while j < chars.len() && chars[j] != '`' {
+                j += 1;
+            }
+            // a pair of backquotes with something in between
+            if j < chars.len() && j > i + 1 {
+                let head: String = chars[..i].iter().collect();
+                let cmd: String = chars[i + 1..j].iter().collect();
+                let tail: String = chars[j + 1..].iter().collect();
+                return Some((head, cmd, tail));
+            }
+        }
         i += 1;
     }
     None
@@ -889,12 +903,13 @@ fn do_command_substitution_for_dollar(sh: &mut Shell, tokens: &mut types::Tokens
     let mut data_words: Vec<usize> = Vec::new();
 
     for (sep, token) in tokens.iter() {
-        if sep == "'" || sep == "\\" || !should_do_dollar_command_extension(token) {
+        if sep == "'" || sep == "\\" || sep == "`"
+                || !(should_do_dollar_command_extension(token) || token.contains('`')) {
             idx += 1;
             continue;
         }
 
-        // one pass from left to right over the `$(...)` of the word: the
+        // one pass from left to right over the `$(...)` and `...` of the word: the
         // output of a command is appended, never looked at again
         let mut line = String::new();
         let mut rest = token.to_string();
@@ -953,11 +968,11 @@ fn do_command_substitution_for_dollar(sh: &mut Shell, tokens: &mut types::Tokens
     }
 }
 
+/// Whole words written between backquotes (the tokenizer tags them with the
+/// backquote); backquotes inside a word are handled together with `$(...)`.
 fn do_command_substitution_for_dot(sh: &mut Shell, tokens: &mut types::Tokens) {
     let mut idx: usize = 0;
     let mut buff: HashMap<usize, String> = HashMap::new();
-    // unquoted words into which an output brought operator characters
-    let mut data_words: Vec<usize> = Vec::new();
     for (sep, token) in tokens.iter() {
         let new_token: String;
         if sep == "`" {
@@ -983,66 +998,6 @@ fn do_command_substitution_for_dot(sh: &mut Shell, tokens: &mut types::Tokens) {
             };
 
             new_token = cr.stdout.trim().to_string();
-        } else if sep == "\"" || sep.is_empty() {
-            let re;
-            if let Ok(x) = Regex::new(r"^([^`]*)`([^`]+)`(.*)$") {
-                re = x;
-            } else {
-                println_stderr!("cicada: re new error");
-                return;
-            }
-            if !re.is_match(token) {
-                idx += 1;
-                continue;
-            }
-            let mut _token = token.clone();
-            let mut _item = String::new();
-            let mut _head = String::new();
-            let mut _output = String::new();
-            let mut _tail = String::new();
-            loop {
-                if !re.is_match(&_token) {
-                    if !_token.is_empty() {
-                        _item = format!("{}{}", _item, _token);
-                    }
-                    break;
-                }
-                for cap in re.captures_iter(&_token) {
-                    _head = cap[1].to_string();
-                    _tail = cap[3].to_string();
-                    log!("run subcmd dot2: {:?}", &cap[2]);
-
-                    let cr = match CommandLine::from_line(&cap[2], sh) {
-                        Ok(c) => {
-                            let (term_given, _cr) = core::run_pipeline(sh, &c, true, true, false);
-                            if term_given {
-                                unsafe {
-                                    let gid = libc::getpgid(0);
-                                    give_terminal_to(gid);
-                                }
-                            }
-
-                            _cr
-                        }
-                        Err(e) => {
-                            println_stderr!("cicada: {}", e);
-                            types::CommandResult::new()
-                        }
-                    };
-
-                    _output = cr.stdout.trim().to_string();
-                    if has_operator_char(&_output) && sep.is_empty() && !is_assignment_word(token)
-                            && !data_words.contains(&idx) {
-                        data_words.push(idx);
-                    }
-                }
-                _item = format!("{}{}{}", _item, _head, _output);
-                if _tail.is_empty() {
-                    break;
-                }
-                _token = _tail.clone();
-            }
-            new_token = _item;
         } else {
             idx += 1;
             continue;
@@ -1054,10 +1009,6 @@ fn do_command_substitution_for_dot(sh: &mut Shell, tokens: &mut types::Tokens) {
 
     for (i, text) in buff.iter() {
         tokens[*i].1 = text.to_string();
-    }
-    // an output is data: its operator characters are not syntax
-    for i in data_words.iter() {
-        tokens[*i].0 = String::from("\"");
     }
 }
 
